@@ -316,7 +316,7 @@ CALLKINDS = ("argcall", "argnest", "arg2", "idxcall", "aftercall", "afterstatic"
 
 
 FKINDS = ["div", "ovf", "castovf", "subscript", "print", "argcall", "argnest", "arg2", "idxcall", "aftercall", "afterstatic", "builtin"]
-HOSTS = ["main", "if", "ifthen", "ifelse", "elseif", "select", "selectelse", "for+", "for-", "while", "dotopwhile", "dobotuntil", "sub"]
+HOSTS = ["main", "if", "ifthen", "ifelse", "elseif", "select", "selectelse", "selectlast", "for+", "for-", "while", "dotopwhile", "dobotuntil", "sub"]
 
 
 def fam_trap(tier, rng):
@@ -490,7 +490,8 @@ def fam_pending(tier, rng):
     out = []
     for kind in ("div", "ovf", "subscript", "argnest", "aftercall", "afterstatic", "builtin"):
         for mode in ("resumenext", "onerrornext", "resume"):
-            for depth, static in ((1, False), (2, False), (1, True), (2, True)):
+            for depth, static, host in ((1, False, "plain"), (2, False, "plain"), (1, True, "plain"), (2, True, "plain"),
+                                        (1, False, "selectlast"), (2, False, "selectelse"), (1, False, "select"), (1, False, "for+"), (1, True, "selectlast")):
                 b = B()
                 q = var("Q", "I")
                 f, code = failing(b, kind)
@@ -500,7 +501,9 @@ def fam_pending(tier, rng):
                 fb = [b.dim("AR", "I", [{"lo": lit("I", 0), "hi": lit("I", 3), "nolo": False}]), b.let(var("M", "I"), lit("I", 32767))]
                 if mode == "resume":
                     fb.append(b.let(q, var("GQ", "I")))          # the handler repairs the SHARED GQ%; the body re-reads it
-                fb += [tok(b, "f-in"), f, tok(b, "f-out"), b.let(var("FB", "I"), lit("I", 1))]
+                # the failing statement may be the last one of a block of the function (of the last CASE block of a SELECT
+                # CASE without CASE ELSE ...): the block's end is what RESUME NEXT continues with
+                fb += [tok(b, "f-in")] + ([f] if host == "plain" else wrap(b, host, [tok(b, "w"), f], 1)) + [tok(b, "f-out"), b.let(var("FB", "I"), lit("I", 1))]
                 subs = [fun("FB", "I", [("X", "I")], fb, static=static)] + (call_subs(b) if kind in CALLKINDS else [])
                 c1 = fcall("FB", "I", [lit("I", 0)], 0)
                 e = bin_("+", lit("I", 100), c1)
@@ -524,7 +527,7 @@ def fam_pending(tier, rng):
                         [b.label("H"), tok(b, "h", {"k": "err"}), b.let(var("GQ", "I"), lit("I", 1)), b.resume("bare")]
                     if kind in ("ovf",):
                         continue
-                out.append({"fam": "pending:%s/%s/%d%s" % (kind, mode, depth, "/static" if static else ""), "prog": prog(main, subs)})
+                out.append({"fam": "pending:%s/%s/%d%s%s" % (kind, mode, depth, "/static" if static else "", "" if host == "plain" else "/" + host), "prog": prog(main, subs)})
     return out
 
 
